@@ -762,6 +762,16 @@ func checkLifetimeSet(r *simkit.Run, t *topo, res *lifeResult, fails map[string]
 	// result of Start / Shutdown: what actually failed (a component planned to fail in Start may never be reached when
 	// an earlier one failed first)
 	var startFailed, shutFailed []string
+	hookStart, hookStop := false, false // a watcher hook failed during start-up / during shutdown
+	for _, e := range res.log {
+		if e.Kind == "hook-fail" {
+			if e.Info == "not-ready" {
+				hookStop = true
+			} else {
+				hookStart = true
+			}
+		}
+	}
 	for _, k := range sortedKeysOf(pos) {
 		if _, ok := pos[k]["start-fail"]; ok {
 			startFailed = append(startFailed, k)
@@ -777,7 +787,7 @@ func checkLifetimeSet(r *simkit.Run, t *topo, res *lifeResult, fails map[string]
 		if len(startFailed) > 1 {
 			r.Failf("order", "start-after-failed-start", "the Start of %d components failed (%v): start-up was not aborted by the first failure", len(startFailed), startFailed)
 		}
-	} else if res.startErr != nil {
+	} else if res.startErr != nil && !hookStart {
 		r.Failf("start-error", tag+"/spurious", "service.Start returned %v although no Start failed", res.startErr)
 	}
 	if len(shutFailed) > 0 {
@@ -790,7 +800,7 @@ func checkLifetimeSet(r *simkit.Run, t *topo, res *lifeResult, fails map[string]
 				}
 			}
 		}
-	} else if res.shutErr != nil {
+	} else if res.shutErr != nil && !hookStop {
 		r.Failf("shutdown-error", tag+"/spurious", "service.Shutdown returned %v although no Shutdown failed", res.shutErr)
 	}
 	for k, what := range fails {
